@@ -667,12 +667,62 @@ fn random_case(ctx: &Ctx, r: &mut Rng) -> Case {
                     h[1] = r.below(4) as u8;
                 }
             }
+            let mut note = format!("header {hlen} bytes");
+            if r.chance(1, 2) {
+                // structural: a well-formed field sequence (flags, optional sizes, filters) whose LAST
+                // filter is cut off at a chosen byte, and the cut is exactly the end of the declared
+                // header - every "is there another byte" test of the parser is the last line of defence
+                for _try in 0..200 {
+                    let nf = 1 + r.usize_below(4);
+                    let mut flags = (nf - 1) as u8;
+                    let mut body: Vec<u8> = Vec::new();
+                    if r.chance(1, 4) {
+                        flags |= 0x40;
+                        body.extend(vli(r.log_range(1, 1 << 40)));
+                    }
+                    if r.chance(1, 4) {
+                        flags |= 0x80;
+                        body.extend(vli(r.log_range(1, 1 << 40)));
+                    }
+                    let mut last_start = 0usize;
+                    for k in 0..nf {
+                        last_start = body.len();
+                        let last = k + 1 == nf;
+                        match if last { r.below(4) } else { r.below(3) } {
+                            0 => {
+                                body.push(4 + r.below(8) as u8);
+                                if r.chance(1, 2) {
+                                    body.push(0);
+                                } else {
+                                    body.push(4);
+                                    body.extend(r.bytes(4));
+                                }
+                            }
+                            1 => body.extend([0x03, 0x01, r.below(256) as u8]),
+                            2 => body.extend([0x21, 0x01, r.below(41) as u8]),
+                            _ => body.extend([0x21, 0x01, 0x28]),
+                        }
+                    }
+                    // cut inside the last filter (at least its id stays)
+                    let item = body.len() - last_start;
+                    let keep = 1 + r.usize_below(item);
+                    body.truncate(last_start + keep);
+                    let total = 2 + body.len(); // size byte + flags + fields
+                    if total % 4 != 0 || !(8..=1024).contains(&total) {
+                        continue;
+                    }
+                    h = vec![(total / 4 - 1) as u8, flags];
+                    h.extend_from_slice(&body);
+                    note = format!("structural header {total} bytes, {nf} filters, last filter cut after {keep} of {item} bytes");
+                    break;
+                }
+            }
             b.extend_from_slice(&h);
             let n = r.usize_below(64);
             b.extend(r.bytes(n));
             let reader = Rd::Xz { multi: r.chance(1, 2) };
             let d = declared_for(&reader, &b);
-            Case { reader, input: b, extra: vec![], class: "xz-block-header-grammar".into(), declared_dict: d, bufsize, note: format!("header {hlen} bytes") }
+            Case { reader, input: b, extra: vec![], class: "xz-block-header-grammar".into(), declared_dict: d, bufsize, note }
         }
         _ => {
             // valid streams concatenated / nested garbage
